@@ -27,5 +27,6 @@ import Tx3Proofs.C01Blocks
 #print axioms Tx3.C01_optional_output_kept_iff
 #print axioms Tx3.C02_scalar_shape
 #print axioms Tx3.C02_scalar_total
+#print axioms Tx3.C02_scalar_nest
 #print axioms Tx3.C02_no_class_refused
 #print axioms Tx3.C02_two_classes_refused
